@@ -18,6 +18,15 @@
            the cursor has moved since the loop head was last visited.
   R-C16-3  readXML hands the parser a buffer of numBytes+1 zero-initialised bytes, reads at most
            numBytes into it, and every `throw` reachable from readXML throws std::runtime_error.
+  R-C16-4  pure std::string& output parameters are assigned on every successful return.
+  R-C16-5  [begin,end) cursor pairs are ordered wherever they are used as a range.
+  R-C16-6  no function with a non-throwing exception specification (noexcept, destructor) on the call graph of readXML can
+           reach a throw-expression (a parse error must not become std::terminate).
+  R-C16-7  no mutable static / thread-local variable read by the parser is left changed when readXML returns or throws
+           (integer counters: CFG exploration of the net effect with callee summaries; constructor/destructor pairs of
+           automatic objects are exception-safe, a plain increment ... decrement around a throwing call is not).
+           R-C16-6/7 have no instance on the pinned tree; drivers/c16_positive.cpp holds known-bad examples that must be
+           reported on every run.
 """
 import re
 
@@ -27,7 +36,8 @@ EXPLANATION = (
     "clang CFGs of every function reachable from parseXML proves, for all inputs at once, the memory-safety clause: "
     "given a NUL-terminated buffer the cursor never passes the terminator and no byte outside the buffer is read; a "
     "loop-progress rule proves that every scanning loop consumes input; a call-graph rule checks that every throw "
-    "reachable from readXML is std::runtime_error and that the buffer really is NUL-terminated. Not decided: "
+    "reachable from readXML is std::runtime_error, that none is thrown underneath a noexcept function or destructor, that no "
+    "static/thread-local parser state survives a call, and that the buffer really is NUL-terminated. Not decided: "
     "faithfulness of the returned tree on the supported subset (value level), recursion depth / stack use, "
     "exceptions thrown by the standard library (bad_alloc).")
 
@@ -1084,6 +1094,385 @@ def check_outparams(ctx, tu):
     ctx.floor(R4, n, 4, 'output parameters of parseString / parseIdentifier / parseProp on the pinned tree: 4')
 
 
+# ============================================================================================
+#  R-C16-6 / R-C16-7: nothing turns a parse error into termination or into state that outlives the call
+# ============================================================================================
+CALLS = ('CallExpr', 'CXXMemberCallExpr', 'CXXOperatorCallExpr', 'CXXConstructExpr', 'CXXTemporaryObjectExpr')
+
+
+def _in_try(tu, n, stop):
+    cur = n
+    while cur is not None and cur.get('id') != stop:
+        p = tu.par(cur)
+        if p is not None and p.get('kind') == 'CXXTryStmt' and tu.kids(p) and tu.kids(p)[0] is cur:
+            return True
+        cur = p
+    return False
+
+
+def _walk_no_lambda(tu, n):
+    stack = [n]
+    while stack:
+        x = stack.pop()
+        if not isinstance(x, dict):
+            continue
+        yield x
+        if x.get('kind') == 'LambdaExpr':
+            continue
+        stack.extend(reversed(x.get('inner', ())))
+
+
+class ExcFacts:
+    """may-throw relation over a set of functions: a function may throw if it contains a throw-expression outside any try block, or
+    calls (outside any try block) a function of the set that may throw."""
+
+    def __init__(self, tu, fns):
+        self.tu = tu
+        self.fns = {f['id']: f for f in fns if tu.body(f) is not None}
+        self.throws = {}
+        self.calls = {}
+        self.has_try = False
+        for f in self.fns.values():
+            b = tu.body(f)
+            th, cs = [], []
+            for n in _walk_no_lambda(tu, b):
+                k = n.get('kind')
+                if k == 'CXXTryStmt':
+                    self.has_try = True
+                if k == 'CXXThrowExpr' and not _in_try(tu, n, b['id']):
+                    th.append(n)
+                elif k in CALLS:
+                    cf = tu.callee_fn(n)
+                    if cf is not None and cf['id'] in self.fns and not _in_try(tu, n, b['id']):
+                        cs.append((n, cf))
+            self.throws[f['id']] = th
+            self.calls[f['id']] = cs
+        self.may = {i: bool(t) for i, t in self.throws.items()}
+        changed = True
+        while changed:
+            changed = False
+            for i, cs in self.calls.items():
+                if not self.may[i] and any(self.may[c['id']] for _, c in cs):
+                    self.may[i] = changed = True
+
+    def witness(self, f, depth=0):
+        """call chain from f to a throw-expression"""
+        tu = self.tu
+        if self.throws[f['id']]:
+            n = self.throws[f['id']][0]
+            return ['%s at %s' % (tu.show(n)[:80], tu.loc(n))]
+        for n, c in self.calls[f['id']]:
+            if self.may[c['id']] and depth < 30:
+                return ['%s calls %s at %s' % (f['q'].split('::')[-1], c['q'].split('::')[-1], tu.loc(n))] + self.witness(c, depth + 1)
+        return []
+
+    def is_barrier(self, f):
+        d = self.tu.node(f['id']) or {}
+        fty = f.get('fty', '')
+        if 'noexcept(false)' in fty.replace(' ', ''):
+            return False
+        return bool(re.search(r'\bnoexcept\b', fty)) or bool(re.search(r'\bthrow\(\)', fty)) or d.get('kind') == 'CXXDestructorDecl'
+
+
+def noexcept_findings(tu, fns):
+    ex = ExcFacts(tu, fns)
+    out = []
+    for f in ex.fns.values():
+        if ex.is_barrier(f) and ex.may[f['id']]:
+            out.append((f, ex.witness(f)))
+    return ex, out
+
+
+class StaticState:
+    """mutable variables with static or thread storage duration used by a set of functions; for integer counters: net effect per
+    function (CFG exploration with callee summaries) and the points where an exception can leave with the counter changed."""
+
+    def __init__(self, tu, ex):
+        self.tu = tu
+        self.ex = ex
+        self.vars = {}
+        self.uses = {}
+        for f in ex.fns.values():
+            for n in tu.walk(tu.body(f)):
+                if n.get('kind') != 'DeclRefExpr':
+                    continue
+                rd = n.get('referencedDecl', {})
+                if rd.get('kind') != 'VarDecl':
+                    continue
+                d = tu.node(rd.get('id'))
+                if d is None or d.get('kind') != 'VarDecl':
+                    continue
+                pk = (tu.par(d) or {}).get('kind')
+                static = d.get('storageClass') == 'static' or d.get('tls') or pk in ('NamespaceDecl', 'TranslationUnitDecl', 'LinkageSpecDecl')
+                qt = d.get('type', {}).get('qualType', '')
+                if not static or qt.startswith('const ') or d.get('constexpr') or qt.endswith('&') or ' *const' in qt and qt.startswith('const '):
+                    continue
+                self.vars[d['id']] = d
+                self.uses.setdefault(d['id'], []).append((f, n))
+        self.memo = {}
+        self.inprog = set()
+        self.raii_cache = {}
+
+    def is_read(self, n):
+        tu = self.tu
+        p = tu.par(n)
+        while p is not None and p.get('kind') in ('ImplicitCastExpr', 'ParenExpr'):
+            n, p = p, tu.par(p)
+        if p is None:
+            return False
+        k = p.get('kind')
+        if k == 'UnaryOperator' and p.get('opcode') in ('++', '--'):
+            return self.is_read(p) if (tu.par(p) or {}).get('kind') not in ('CompoundStmt', 'ForStmt', 'IfStmt', 'WhileStmt', None) else False
+        if k in ('BinaryOperator', 'CompoundAssignOperator') and p.get('opcode') in ('=', '+=', '-=') and tu.kids(p)[0] is n:
+            return False
+        if k in ('CompoundStmt',):
+            return False
+        return True
+
+    def try_touches(self, n, stop, v):
+        """n lies in the try block of a try statement that mentions v (a handler might restore it)"""
+        tu = self.tu
+        cur = n
+        while cur is not None and cur.get('id') != stop:
+            p = tu.par(cur)
+            if p is not None and p.get('kind') == 'CXXTryStmt' and tu.kids(p) and tu.kids(p)[0] is cur:
+                if any(x.get('kind') == 'DeclRefExpr' and x.get('referencedDecl', {}).get('id') == v for x in tu.walk(p)):
+                    return True
+            cur = p
+        return False
+
+    def delta_of(self, n, v):
+        """effect of statement node n on variable v: int delta, 'abs', or None (no direct effect)"""
+        tu = self.tu
+        k = n.get('kind')
+        if k == 'UnaryOperator' and n.get('opcode') in ('++', '--') and tu.ref_decl(tu.kids(n)[0]) == v:
+            return 1 if n['opcode'] == '++' else -1
+        if k == 'CompoundAssignOperator' and n.get('opcode') in ('+=', '-=') and tu.ref_decl(tu.kids(n)[0]) == v:
+            c = tu.sd(tu.strip(tu.kids(n)[1], casts=True)).get('cv')
+            if c is None:
+                return 'abs'
+            return int(c) if n['opcode'] == '+=' else -int(c)
+        if k == 'BinaryOperator' and n.get('opcode') == '=' and tu.ref_decl(tu.kids(n)[0]) == v:
+            return 'abs'
+        return None
+
+    def dtor_of(self, ty):
+        t = ty.replace('const ', '').strip()
+        for f in self.ex.fns.values():
+            if f.get('rect') == t and (self.tu.node(f['id']) or {}).get('kind') == 'CXXDestructorDecl':
+                return f
+        for f in self.tu.functions.values():
+            if f.get('rect') == t and (self.tu.node(f['id']) or {}).get('kind') == 'CXXDestructorDecl' and self.tu.cfg(f) is not None:
+                return f
+        return None
+
+    def raii(self, ctor, v):
+        """True if `ctor`'s class pairs the constructor's effect on v with the opposite effect in its destructor"""
+        key = (ctor['id'], v)
+        if key not in self.raii_cache:
+            self.raii_cache[key] = False
+            e = self.effect(ctor, v)
+            d = self.dtor_of(ctor.get('rect', '')) if ctor.get('rect') else None
+            if d is not None and e and all(isinstance(x, int) for x in e) and len(e) == 1 and list(e)[0] != 0:
+                de = self.effect(d, v)
+                self.raii_cache[key] = de == {-list(e)[0]}
+        return self.raii_cache[key]
+
+    def effect(self, f, v, findings=None):
+        """set of net effects (int or 'abs') of f on v over its normal exits"""
+        tu = self.tu
+        key = (f['id'], v)
+        if findings is None and key in self.memo:
+            return self.memo[key]
+        if key in self.inprog:
+            return {0}
+        g = tu.cfg(f)
+        if g is None:
+            return {0}
+        self.inprog.add(key)
+        body = tu.body(f)
+
+        def add(st, d):
+            if st == 'abs' or d == 'abs':
+                return 'abs'
+            r = st + d
+            return r if -4 <= r <= 4 else 'abs'
+
+        def transfer(blk, i, e, st):
+            if e[0] == 'AD':
+                d = self.dtor_of(e[3])
+                if d is None:
+                    return [st]
+                ctor_raii = any(self.raii(c, v) for c in tu.functions.values()
+                                if c.get('rect') == d.get('rect') and (tu.node(c['id']) or {}).get('kind') == 'CXXConstructorDecl' and tu.cfg(c) is not None)
+                if ctor_raii:
+                    return [st]
+                return [add(st, x) for x in self.effect(d, v)]
+            if e[0] != 'S':
+                return [st]
+            n = tu.node(e[1])
+            if n is None:
+                return [st]
+            d = self.delta_of(n, v)
+            if d is not None:
+                return [add(st, d)]
+            k = n.get('kind')
+            if k == 'CXXThrowExpr':
+                if findings is not None and isinstance(st, int) and st != 0 and not self.try_touches(n, body['id'], v):
+                    findings.append((f, n, st, None))
+                return []
+            if k in CALLS:
+                cf = tu.callee_fn(n)
+                if cf is None or tu.cfg(cf) is None:
+                    return [st]
+                if k in ('CXXConstructExpr', 'CXXTemporaryObjectExpr') and (tu.par(n) or {}).get('kind') == 'VarDecl' and self.raii(cf, v):
+                    return [st]
+                if findings is not None and isinstance(st, int) and st != 0 and cf['id'] in self.ex.may and self.ex.may[cf['id']] \
+                        and not self.try_touches(n, body['id'], v):
+                    findings.append((f, n, st, cf))
+                return [add(st, x) for x in self.effect(cf, v)]
+            return [st]
+
+        try:
+            res = g.explore([0], transfer)
+            out = set(s for s, _ in res.exits)
+        except RuntimeError:
+            out = {'abs'}
+        self.inprog.discard(key)
+        if findings is None:
+            self.memo[key] = out
+        return out
+
+
+def state_findings(tu, ex, entry):
+    """[(kind, var decl, fn, node, detail)] for the mutable static/thread-local variables used under `entry`"""
+    ss = StaticState(tu, ex)
+    out = []
+    for vid, d in sorted(ss.vars.items(), key=lambda kv: kv[1].get('name', '')):
+        name = d.get('name')
+        qt = d.get('type', {}).get('qualType', '')
+        uses = ss.uses[vid]
+        if not any(ss.is_read(n) for _, n in uses):
+            out.append(('ok', d, None, None, 'written but never read by the parser: cannot influence a result'))
+            continue
+        if qt not in ('int', 'unsigned int', 'long', 'unsigned long', 'size_t', 'std::size_t', 'short', 'unsigned', 'long long', 'unsigned long long'):
+            out.append(('und', d, uses[0][0], uses[0][1], 'mutable %s `%s` of type %s is read by the parser' % (
+                'thread-local' if d.get('tls') else 'static', name, qt)))
+            continue
+        if any(x.get('kind') == 'CXXTryStmt' and any(y.get('kind') == 'DeclRefExpr' and y.get('referencedDecl', {}).get('id') == vid
+                                                     for y in tu.walk(x))
+               for f in ex.fns.values() for x in tu.walk(tu.body(f))):
+            out.append(('und', d, uses[0][0], uses[0][1], 'counter `%s` is handled inside try/catch blocks' % name))
+            continue
+        bad = []
+        for f in ex.fns.values():
+            fl = []
+            ss.effect(f, vid, fl)
+            bad.extend(fl)
+        e = ss.effect(entry, vid)
+        seen = set()
+        for f, n, st, cf in bad:
+            k = (f['id'], n['id'])
+            if k in seen:
+                continue
+            seen.add(k)
+            out.append(('exc', d, f, n, (st, cf)))
+        if e != {0} and not bad:
+            if all(isinstance(x, int) for x in e):
+                out.append(('drift', d, entry, None, sorted(e)))
+            else:
+                out.append(('und', d, entry, None, 'net effect of %s on `%s` not determined' % (entry['q'], name)))
+        elif not bad:
+            out.append(('ok', d, None, None, 'restored on every normal exit; no throwing call while it is changed (or changed only by a '
+                                             'constructor/destructor pair of an automatic object)'))
+    return out
+
+
+def check_exception_discipline(ctx, tu):
+    R6, R7 = 'R-C16-6', 'R-C16-7'
+    ctx.describe(R6, 'no function with a non-throwing exception specification (noexcept, destructor) on the way from readXML can reach a '
+                     'throw-expression: a parse error must surface as std::runtime_error, not as std::terminate')
+    ctx.describe(R7, 'no mutable static or thread-local state read by the parser is left changed when readXML returns or throws: the result '
+                     'depends on the file contents only, not on earlier calls')
+    fs = tu.fns(q='rkcommon::xml::readXML')
+    if len(fs) != 1 or tu.cfg(fs[0]) is None:
+        ctx.broken('%s: rkcommon::xml::readXML not found' % R6)
+        return
+    entry = fs[0]
+    fns = [f for f in reachable_fns(tu, entry) if tu.fn_file(f).startswith('rkcommon/')]
+    ex, found = noexcept_findings(tu, fns)
+    nb = 0
+    for f in ex.fns.values():
+        if ex.is_barrier(f):
+            nb += 1
+            if not ex.may[f['id']]:
+                ctx.ok(R6, '%s %s' % (f['q'].replace('rkcommon::', ''), f['fty']), 'non-throwing specification and no reachable throw-expression',
+                       tu.fn_loc(f), nontrivial=False)
+    for f, chain in found:
+        inst = '%s %s' % (f['q'].replace('rkcommon::', ''), f['fty'])
+        ctx.violation(R6, inst, 'the function cannot let an exception out (%s) but a parse error is thrown underneath it: %s; on such a file '
+                      'readXML calls std::terminate instead of throwing std::runtime_error' % (
+                          'noexcept' if 'noexcept' in f['fty'] else 'destructor', ' -> '.join(chain)), tu.fn_loc(f),
+                      key='%s|%s|%s|noexcept-barrier' % (R6, tu.fn_file(f), inst), path=['entry readXML'] + chain)
+    ctx.ok(R6, 'xml::readXML call graph', '%d function(s) reachable in rkcommon/, %d may throw a parse error, %d with a non-throwing '
+           'specification, none of those can reach a throw' % (len(ex.fns), sum(1 for v in ex.may.values() if v), nb), tu.fn_loc(entry)) \
+        if not found else None
+    ctx.floor(R6, len(ex.fns), 12, 'functions reachable from readXML inside rkcommon/ (about 30 on the pinned tree)')
+    ctx.floor(R6 + ' throwing', sum(1 for v in ex.may.values() if v), 6, 'parser functions that can throw a parse error')
+    sf = state_findings(tu, ex, entry)
+    for kind, d, f, n, det in sf:
+        name = d.get('name')
+        inst = 'static `%s`' % name
+        loc = tu.loc(n) if n is not None else tu.loc(d)
+        key = '%s|%s|%s|' % (R7, XML_FILE, name)
+        if kind == 'ok':
+            ctx.ok(R7, inst, det, loc)
+        elif kind == 'und':
+            ctx.undecided(R7, inst, det, loc)
+        elif kind == 'exc':
+            st, cf = det
+            ctx.violation(R7, inst, '%s changes `%s` by %+d and then %s while the change is still pending; the matching restore is skipped when '
+                          'that throws, so after a rejected document the %s counter keeps its value and a later readXML call on the same '
+                          'thread behaves differently for the same file' % (
+                              f['q'].replace('rkcommon::', ''), name, st,
+                              ('calls %s, which can throw a parse error (%s),' % (cf['q'].split('::')[-1], ' -> '.join(ex.witness(cf))[:200]))
+                              if cf is not None else 'throws', 'thread-local' if d.get('tls') else 'static'),
+                          loc, key=key + 'unbalanced-on-exception')
+        elif kind == 'drift':
+            ctx.violation(R7, inst, 'readXML returns with `%s` changed by %s: every call shifts state that the parser reads' % (name, det), loc,
+                          key=key + 'drift')
+    if not sf:
+        ctx.ok(R7, 'xml::readXML call graph', 'no mutable static or thread-local variable is used by the %d functions reachable from readXML' % len(ex.fns),
+               tu.fn_loc(entry))
+    return ex
+
+
+def check_positive_examples(ctx):
+    """the two rules above have no instance on the pinned tree; they must fire on the known-bad examples of drivers/c16_positive.cpp"""
+    try:
+        tu = ctx.front.parse('drivers/c16_positive.cpp', 'TBB')
+    except Exception as e:      # noqa
+        ctx.broken('R-C16-6/7 positive examples: %s' % str(e)[:300])
+        return
+    es = [f for f in tu.functions.values() if f['q'] == 'rkverif_c16::entry']
+    if len(es) != 1:
+        ctx.broken('R-C16-6/7 positive examples: entry not found')
+        return
+    fns = reachable_fns(tu, es[0])
+    ex, found = noexcept_findings(tu, fns)
+    names = sorted(f['q'].split('::')[-1] for f, _ in found)
+    if names != ['barrier']:
+        ctx.broken('R-C16-6 self-check: expected exactly `barrier` to be reported on drivers/c16_positive.cpp, got %s' % names)
+    sf = state_findings(tu, ex, es[0])
+    excs = sorted(set(f['q'].split('::')[-1] for k, d, f, n, det in sf if k == 'exc'))
+    if excs != ['counted']:
+        ctx.broken('R-C16-7 self-check: expected exactly `counted` to be reported on drivers/c16_positive.cpp, got %s (%s)' % (
+            excs, [(k, det) for k, d, f, n, det in sf if k != 'exc']))
+    else:
+        ctx.ok('R-C16-6', 'self-check', 'the rules fire on the known-bad examples (barrier, counted) and not on the RAII guard', 'drivers/c16_positive.cpp',
+               nontrivial=False)
+
+
 def run(ctx):
     ctx.assume('the buffer handed to parseXML is NUL-terminated (established by R-C16-3 for readXML)')
     ctx.assume('library character predicates (isalpha, isdigit, isspace) return false for the NUL byte')
@@ -1092,5 +1481,7 @@ def run(ctx):
     check_cursor(ctx, tu)
     check_readxml(ctx, tu)
     check_outparams(ctx, tu)
+    check_exception_discipline(ctx, tu)
+    check_positive_examples(ctx)
     from rkstatic import selftest
     selftest.run(ctx)
